@@ -6,6 +6,8 @@ from .common import *
 from .vecdiff import *
 from . import c05
 
+CRATES = (IM,)
+
 META = {
     "explanation": (
         "Static decision on MIR: R06.1 every broadcast message carries the contents *after* the mutation - the `state` field is a clone of the "
